@@ -32,109 +32,113 @@ def T(profile, n, extra=()):
 PROPS = {
     "C01": {
         "runs": runs(
-            [T("general", 500, Q), T("resize", 400), T("alt", 300), T("parser", 300), T("scrollback", 200),
-             ("chunk", "general", 150, []), ("stream", "scrollback", 150, []), ("dump", "general", 100, []),
-             ("text", "general", 200, []), ("stress", "stress", 64, [])],
+            [T("general", 1500, Q), T("resize", 1200), T("alt", 900), T("parser", 900), T("scrollback", 600),
+             ("chunk", "general", 450, []), ("stream", "scrollback", 450, []), ("dump", "general", 300, []),
+             ("text", "general", 600, []), ("stress", "stress", 192, [])],
             [T("general", 20000, Q), T("resize", 12000), T("alt", 8000), T("parser", 8000), T("scrollback", 4000),
              T("edit", 4000), T("scroll", 4000), T("save", 3000), T("tabs", 3000),
              ("chunk", "general", 4000, []), ("stream", "scrollback", 4000, []), ("dump", "general", 3000, []),
              ("text", "general", 5000, []), ("stress", "stress", 2000, [])]),
         "cone": ALLP, "proj": ["panic.", "hang."],
-        "theorems": [],
     },
     "C02": {
-        "runs": runs([T("general", 500, Q), T("resize", 500), T("alt", 500), T("save", 500), T("print", 300)],
-                     [T("general", 20000, Q), T("resize", 15000), T("alt", 10000), T("scrollback", 5000), T("save", 3000)]),
+        "runs": runs([T("general", 1500, Q), T("resize", 1500), T("alt", 1500), T("save", 1500), T("print", 900)],
+                     [T("general", 20000, Q), T("resize", 15000), T("alt", 10000), T("scrollback", 5000), T("save", 8000),
+                      T("print", 5000)]),
         "cone": ALLP, "proj": ["size", "buf.geom", "buf.nlines", "other.geom", "other.nlines", "cursor", "dirty_len",
                                "out.lines", "panic.", "public"],
     },
     "C03": {
         "runs": runs(
-            [("sweep", "sweep", 0, []), T("parser", 1200), T("sgr", 300)],
-            [("sweep", "sweep", 0, []), T("parser", 20000), T("sgr", 5000), T("inert", 5000), T("general", 5000)]),
+            [("sweep", "sweep", 0, []), T("parser", 3000), T("sgr", 1200)],
+            [("sweep", "sweep", 0, []), T("parser", 30000), T("sgr", 10000), T("inert", 10000), T("general", 10000)]),
         "cone": ALLP,
         "proj": PARSER_PROJ,
         "exhaustive_sweep": True,
         "rule": "exhaustive sweep: 14 states x all 1,112,064 scalar values x 2-8 parameter backgrounds on the "
                 "implementation, run-length encoded and compared with the regenerated table at every breakpoint; "
                 "plus step-wise correspondence of Parser::feed (state, parameters, intermediate, emitted function) "
-                "on generated streams",
+                "on generated streams; memorylessness and SGR decoding checked on the implementation",
     },
     "C04": {
-        "runs": runs([T("print", 900), T("general", 300)], [T("print", 30000), T("general", 10000), T("resize", 5000)]),
+        "runs": runs([T("print", 2700), T("general", 900)], [T("print", 40000), T("general", 15000), T("resize", 8000)]),
         "cone": PRINT_FNS, "proj": VIEW_PROJ + ["charset", "modes", "pen"],
     },
     "C05": {
-        "runs": runs([T("cursor", 900), T("tabs", 300)], [T("cursor", 30000), T("tabs", 8000), T("general", 8000)]),
+        "runs": runs([T("cursor", 2700), T("tabs", 900)], [T("cursor", 40000), T("tabs", 12000), T("general", 12000)]),
         "cone": CURSOR_FNS, "proj": ["cursor", "margins", "modes", "buf.", "panic."],
     },
     "C06": {
-        "runs": runs([T("scroll", 900), T("scrollback", 300)], [T("scroll", 30000), T("scrollback", 10000), T("general", 8000)]),
+        "runs": runs([T("scroll", 2700), T("scrollback", 900)], [T("scroll", 40000), T("scrollback", 15000), T("general", 12000)]),
         "cone": SCROLL_FNS, "proj": VIEW_PROJ + ["margins"],
     },
     "C07": {
-        "runs": runs([T("edit", 1000), T("general", 200)], [T("edit", 30000), T("general", 8000)]),
+        "runs": runs([T("edit", 3000), T("general", 600)], [T("edit", 40000), T("general", 12000)]),
         "cone": EDIT_FNS, "proj": VIEW_PROJ,
     },
     "C08": {
-        "runs": runs([T("sgr", 1000), T("edit", 200)], [T("sgr", 30000), T("edit", 5000), T("general", 5000)]),
+        "runs": runs([T("sgr", 3000), T("edit", 600)], [T("sgr", 40000), T("edit", 8000), T("general", 8000)]),
         "cone": ["Sgr", "Print"] + EDIT_FNS + ["Su", "Sd", "Il", "Dl"], "proj": ["pen", "fn", "buf.view", "panic."],
     },
     "C09": {
-        "runs": runs([("text", "general", 1500, []), T("print", 300, Q)],
-                     [("text", "general", 60000, []), T("print", 10000, Q)]),
+        "runs": runs([("text", "general", 4500, []), T("print", 900, Q)],
+                     [("text", "general", 80000, []), T("print", 15000, Q)]),
         "cone": ["Print", "Cr", "Lf", "L", "Q", "text"], "proj": VIEW_PROJ + ["text", "out."],
     },
     "C10": {
-        "runs": runs([T("resize", 1500)], [T("resize", 60000), T("alt", 10000)]),
+        "runs": runs([T("resize", 4500)], [T("resize", 80000), T("alt", 15000)]),
         "cone": ["R"], "proj": ["buf.", "cursor", "size", "panic.", "out."],
     },
     "C11": {
-        "runs": runs([("dump", "general", 400, []), ("dump", "alt", 200, []), ("dump", "save", 200, []), T("general", 300, Q)],
-                     [("dump", "general", 12000, []), ("dump", "alt", 6000, []), ("dump", "save", 6000, []),
-                      ("dump", "tabs", 3000, []), ("dump", "parser", 4000, []), T("general", 10000, Q)]),
+        "runs": runs([("dump", "general", 1200, []), ("dump", "alt", 600, []), ("dump", "save", 600, []),
+                      ("dump", "parser", 600, []), ("dump", "tabs", 300, []), T("general", 900, Q)],
+                     [("dump", "general", 15000, []), ("dump", "alt", 8000, []), ("dump", "save", 8000, []),
+                      ("dump", "tabs", 4000, []), ("dump", "parser", 6000, []), ("dump", "sgr", 3000, []), T("general", 12000, Q)]),
         "cone": ["dump", "Q"], "proj": ["dump", "panic."],
     },
     "C12": {
-        "runs": runs([("chunk", "general", 600, []), ("chunk", "parser", 300, []), ("chunk", "alt", 400, []),
-                      ("chunk", "scroll", 900, []), ("chunk", "scrollback", 500, [])],
-                     [("chunk", "general", 20000, []), ("chunk", "parser", 10000, []), ("chunk", "alt", 10000, []),
-                      ("chunk", "scrollback", 10000, [])]),
+        "runs": runs([("chunk", "general", 1800, []), ("chunk", "parser", 900, []), ("chunk", "alt", 1200, []),
+                      ("chunk", "scroll", 2700, []), ("chunk", "scrollback", 1500, [])],
+                     [("chunk", "general", 25000, []), ("chunk", "parser", 12000, []), ("chunk", "alt", 12000, []),
+                      ("chunk", "scroll", 25000, []), ("chunk", "scrollback", 12000, [])]),
         "cone": ["L"], "proj": ALLP,
     },
     "C13": {
-        "runs": runs([T("scrollback", 900), T("resize", 400)], [T("scrollback", 30000), T("resize", 15000), T("alt", 8000)]),
+        "runs": runs([T("scrollback", 2700), T("resize", 1200), T("alt", 600)],
+                     [T("scrollback", 40000), T("resize", 20000), T("alt", 10000)]),
         "cone": ["L", "R"] + SCROLL_FNS, "proj": ["buf.nlines", "buf.trim", "buf.scrollback", "buf.limit", "out.", "panic."],
     },
     "C14": {
-        "runs": runs([("stream", "scrollback", 800, []), ("stream", "general", 400, []), T("scrollback", 300)],
-                     [("stream", "scrollback", 30000, []), ("stream", "general", 15000, []), ("stream", "alt", 10000, []),
-                      T("scrollback", 10000)]),
+        "runs": runs([("stream", "scrollback", 2400, []), ("stream", "general", 1200, []), ("stream", "alt", 600, []),
+                      T("scrollback", 900)],
+                     [("stream", "scrollback", 40000, []), ("stream", "general", 20000, []), ("stream", "alt", 12000, []),
+                      T("scrollback", 12000)]),
         "cone": ["L"] + SCROLL_FNS, "proj": ["out.drained", "buf.scrollback", "buf.nlines", "buf.trim", "panic."],
     },
     "C15": {
-        "runs": runs([T("dirty", 900), T("general", 300)], [T("dirty", 30000), T("general", 10000), T("resize", 8000), T("alt", 5000)]),
+        "runs": runs([T("dirty", 2700), T("general", 900), T("resize", 600)],
+                     [T("dirty", 40000), T("general", 12000), T("resize", 10000), T("alt", 6000)]),
         "cone": ALLP, "proj": ["dirty_under", "dirty_len", "out.lines", "buf.view", "panic."],
     },
     "C16": {
-        "runs": runs([T("alt", 1200)], [T("alt", 40000), T("save", 8000), T("general", 8000)]),
+        "runs": runs([T("alt", 3600)], [T("alt", 50000), T("save", 10000), T("general", 10000)]),
         "cone": ALLP, "proj": ["other.", "buf.", "active", "sctx", "asctx", "cursor", "panic."],
     },
     "C17": {
-        "runs": runs([T("save", 1200)], [T("save", 40000), T("alt", 10000)]),
+        "runs": runs([T("save", 3600)], [T("save", 50000), T("alt", 12000)]),
         "cone": SAVE_FNS, "proj": ["sctx", "asctx", "cursor", "pen", "modes", "active", "panic."],
     },
     "C18": {
-        "runs": runs([T("tabs", 1200)], [T("tabs", 40000), T("resize", 8000)]),
+        "runs": runs([T("tabs", 3600)], [T("tabs", 50000), T("resize", 10000)]),
         "cone": TAB_FNS, "proj": ["tabs", "cursor", "panic."],
     },
     "C19": {
-        "runs": runs([T("reset", 1200)], [T("reset", 40000), T("general", 8000)]),
+        "runs": runs([T("reset", 3600)], [T("reset", 50000), T("general", 10000)]),
         "cone": ["Ris"], "proj": ALLP,
     },
     "C20": {
-        "runs": runs([("sweep", "sweep", 0, []), T("inert", 1200), T("parser", 400)],
-                     [("sweep", "sweep", 0, []), T("inert", 40000), T("parser", 15000)]),
+        "runs": runs([("sweep", "sweep", 0, []), T("inert", 3600), T("parser", 1200)],
+                     [("sweep", "sweep", 0, []), T("inert", 50000), T("parser", 20000)]),
         "cone": ALLP, "proj": PARSER_PROJ + ["panic."],
         "exhaustive_sweep": True,
     },
